@@ -35,6 +35,8 @@ def check(ctx, run):
     _units.check(ctx, run, 'R07.11/R05.15', only=lambda p_: p_.startswith(('jsonpath::selector', 'functions::')))
     editing.r06_17(ctx, run, rule='R07.12/R06.17')
     editing.r06_18(ctx, run, rule='R07.13/R06.18')
+    # what an editor drops decides whether its result equals the tree result (R06.8)
+    editing.r06_8(ctx, run, rule='R07.14/R06.8')
     accessors.name_variants_alike(ctx, run, 'R07.7', lambda p_: p_.startswith('functions::'))
     from rules import layout as _layout
     _layout.r01_2(ctx, run, rule='R07.9/R01.2')
